@@ -371,8 +371,12 @@ def to_vector(c):
     if c is None or c is False:
         return c
     if hasattr(c, vector):
-        # already labelled: keep the labels, but still normalize
-        return c / np.sqrt((c**2).sum(vector))
+        # already labelled: keep the labels (and the object itself when it
+        # is of unit length already), but still normalize
+        norm = np.sqrt((c**2).sum(vector))
+        if bool((norm == 1).all()):
+            return c
+        return c / norm
     if isinstance(c, dict):
         c = c.copy()
         for key, val in c.items():
